@@ -65,6 +65,7 @@ type cexFile struct {
 	Inputs    map[string]uint64 `json:"inputs"`
 	Schedule  []string          `json:"schedule,omitempty"`
 	SchedPath []int             `json:"sched_choices,omitempty"`
+	Visible   []string          `json:"extra_scheduling_points,omitempty"`
 	Prefix    []int             `json:"prefix"`
 	Violation struct {
 		Kind      string `json:"kind"`
@@ -178,7 +179,7 @@ func cmdCheck(args []string) int {
 			v := &res.Violations[vi]
 			sig := v.Signature(j.Name)
 			cex := cexFile{Property: id, Job: j.Name, Harness: j.Fn, Package: j.Pkg, Files: j.Files, Tier: tier,
-				Params: tierParams(j, tier), Inputs: v.Model, Schedule: v.Sched, Prefix: v.Prefix, SchedPath: v.SchedPath}
+				Params: tierParams(j, tier), Inputs: v.Model, Schedule: v.Sched, Prefix: v.Prefix, SchedPath: v.SchedPath, Visible: v.Visible}
 			cex.Violation.Kind, cex.Violation.Message, cex.Violation.Func, cex.Violation.Pos, cex.Violation.Signature = v.Kind, v.Msg, v.Func, v.Pos, sig
 			path := filepath.Join(root, "evidence", "cex", fmt.Sprintf("%s-%s-%d.json", id, j.Name, vi))
 			writeJSON(path, &cex)
@@ -317,7 +318,7 @@ func replayCex(cex *cexFile, j *JobSpec, path string) bool {
 		if sp == nil {
 			sp = []int{}
 		}
-		r, err := runJobConcrete(j, cex.Tier, inputs, sp)
+		r, err := runJobConcrete(j, cex.Tier, inputs, sp, cex.Visible...)
 		switch {
 		case err != nil:
 			cex.Replay.L1 = "error: " + err.Error()
@@ -365,8 +366,8 @@ func replayCex(cex *cexFile, j *JobSpec, path string) bool {
 	return ok
 }
 
-func runJobConcrete(j *JobSpec, tier string, inputs map[string]uint64, prefix []int) (*JobResult, error) {
-	return runJob(j, tier, nil, inputs, prefix)
+func runJobConcrete(j *JobSpec, tier string, inputs map[string]uint64, prefix []int, visible ...string) (*JobResult, error) {
+	return runJob(j, tier, nil, inputs, prefix, visible...)
 }
 
 const replayTestTmpl = `package %s
